@@ -56,7 +56,7 @@ ASSUMPTIONS = [
     "numpy's global RNG (UniformGenerator) is seeded from the case",
     "BoxBehnken with fewer than 3 factors must raise RuntimeError (raise in the code, treated as documented rejection)",
 ]
-BOUND = {'quick': '4 shards x 550 Hypothesis cases', 'thorough': '16 shards x 4000 Hypothesis cases'}
+BOUND = {'quick': '2 shards x 850 Hypothesis cases', 'thorough': '8 shards x 4000 Hypothesis cases'}
 MIN_CLASS_FRACTION = {'judged': 0.75, 'mode_drv': 0.2, 'api_samp': 0.2, 'gen_ff': 0.1, 'gen_lhs': 0.1}
 UNIT_TIMEOUT = {'quick': 1800, 'thorough': 14400}
 
@@ -448,7 +448,9 @@ def judge_design(case, vars_, names, rows, fail):
                 fail('ff:count', f"{R} cases, expected prod(levels)={nexp} (levels {lv})")
             else:
                 # independent oracle: multiset of runs == itertools.product of the level tables
-                free = [j for j in range(F) if lv[j] > 1 and U[j] > L[j]]
+                # factors whose levels are well separated (spacing >> tolerance) are identified by level index; for the
+                # others (one level, lower == upper, or bounds a few ulp apart) only membership and multiplicity count
+                free = [j for j in range(F) if lv[j] > 1 and (U[j] - L[j]) / (lv[j] - 1) > 16 * ltol[j]]
                 mult = int(np.prod([lv[j] for j in range(F) if j not in free]))
                 from collections import Counter
                 cnt = Counter()
@@ -456,12 +458,12 @@ def judge_design(case, vars_, names, rows, fail):
                 for r in range(R):
                     key = []
                     for j in range(F):
-                        hit = np.nonzero(np.abs(table[j] - X[r, j]) <= ltol[j])[0]
-                        if hit.size == 0:
+                        near = int(np.argmin(np.abs(table[j] - X[r, j])))
+                        if not abs(table[j][near] - X[r, j]) <= ltol[j]:
                             bad = (r, j)
                             break
                         if j in free:
-                            key.append(int(hit[0]))
+                            key.append(near)
                     if bad:
                         break
                     cnt[tuple(key)] += 1
@@ -514,9 +516,10 @@ def judge_design(case, vars_, names, rows, fail):
     elif t == 'uniform':
         if R != g['num_samples']:
             fail('uniform:count', f"{R} cases, expected num_samples={g['num_samples']}")
-        elif R >= 3 and np.any(U > L):
+        elif R >= 3:
             j = int(np.argmax(U - L))
-            if np.unique(X[:, j]).size == 1:
+            # only for a range that holds far more than R doubles (bounds a few ulp apart legitimately repeat values)
+            if U[j] - L[j] > 1e6 * np.spacing(mag[j]) and np.unique(X[:, j]).size == 1:
                 fail('uniform:samples-identical', f"all {R} samples of factor {j} equal {float(X[0, j])!r}")
 
 
@@ -934,7 +937,7 @@ def strategy(tier):
                           'indices': indices, 'lower': lo, 'upper': hi, 'scaling': scaling})
         sizes = [dvsize(v) for v in vars_]
         F = sum(sizes)
-        cap = 256 if mode == 'gen' else 48
+        cap = 128 if mode == 'gen' else 48
         seed = draw(st.one_of(st.none(), st.integers(0, 2**31 - 1), st.integers(0, 50)))
         if t == 'uniform':
             g = {'type': t, 'num_samples': draw(st.integers(1, 6)), 'seed': seed}
@@ -1009,7 +1012,7 @@ def strategy(tier):
             if t == 'csv':
                 g['pad'] = draw(st.sampled_from([0, 0, 1, 2]))
         return {'mode': mode, 'api': api, 'style': style, 'promote': promote, 'npseed': draw(st.integers(0, 10000)),
-                'rec': mode == 'drv' and chance(draw, 0.1), 'vars': vars_, 'gen': g}
+                'rec': mode == 'drv' and chance(draw, 0.075), 'vars': vars_, 'gen': g}
     return case()
 
 
@@ -1019,8 +1022,8 @@ def strategy(tier):
 
 def units(tier, seed):
     # few, long shards: importing openmdao + pydoe dominates the cost of a worker process
-    n = 4 if tier == 'quick' else 16
-    per = 550 if tier == 'quick' else 4000
+    n = 2 if tier == 'quick' else 8
+    per = 850 if tier == 'quick' else 4000
     return [{'kind': 'random', 'n': per, 'seed': core.shard_seed(seed, ID, i)} for i in range(n)]
 
 
